@@ -152,7 +152,7 @@ func newContractSet() *ContractSet {
 	return &ContractSet{Funcs: map[string]*Contract{}, Preds: map[string]*PredDef{}, FuncTypes: map[string]*Contract{}}
 }
 
-var tagRe = regexp.MustCompile(`^ensures\[([A-Za-z0-9_, ]+)\]`)
+var tagRe = regexp.MustCompile(`^ensures\[([A-Za-z0-9_., ]+)\]`)
 
 // preprocess turns contract expression text into something go/parser accepts.
 func preprocessExpr(s string) string {
@@ -211,7 +211,7 @@ func (cs *ContractSet) loadContractFile(path, pkgPath string) error {
 			no   int
 		}{t, i + 1})
 	}
-	keywords := []string{"pred ", "abstract pred ", "func ", "extern func ", "functype ", "requires ", "ensures", "logical ", "loop ", "modifies", "pure", "assert ", "ghost ", "when ", "guarded ", "lemma ", "hint ", "by ", "use ", "trusted", "acquires ", "fn ", "ufun ", "axiom ", "deterministic", "frametags ", "opaque pred ", "reveal ", "preserves ", "ghostvar ", "typeframe", "typeframe ", "constructor", "ghostglobal ", "ghostwrites ", "invariant ", "applies "}
+	keywords := []string{"pred ", "abstract pred ", "func ", "extern func ", "functype ", "requires ", "ensures", "logical ", "loop ", "modifies", "pure", "assert ", "assert[", "ghost ", "when ", "guarded ", "lemma ", "hint ", "by ", "use ", "trusted", "acquires ", "fn ", "ufun ", "axiom ", "deterministic", "frametags ", "opaque pred ", "reveal ", "preserves ", "ghostvar ", "typeframe", "typeframe ", "constructor", "ghostglobal ", "ghostwrites ", "invariant ", "applies "}
 	startsKeyword := func(s string) bool {
 		s = strings.TrimSpace(s)
 		for _, k := range keywords {
@@ -442,6 +442,12 @@ func (cs *ContractSet) loadContractFile(path, pkgPath string) error {
 				case strings.HasPrefix(rest, "invariant"):
 					var tags []string
 					body := strings.TrimPrefix(rest, "invariant")
+					if m := regexp.MustCompile(`^\[([A-Za-z0-9_., ]+)\]`).FindStringSubmatch(body); m != nil {
+						for _, x := range strings.Split(m[1], ",") {
+							tags = append(tags, strings.TrimSpace(x))
+						}
+						body = body[len(m[0]):]
+					}
 					c, err := mkClause(body, tags)
 					if err != nil {
 						return err
@@ -523,8 +529,15 @@ func (cs *ContractSet) loadContractFile(path, pkgPath string) error {
 						cur.Modifies = append(cur.Modifies, ModSpec{Text: strings.TrimSpace(part)})
 					}
 				}
-			case strings.HasPrefix(t, "assert "):
-				// assert at <where>: expr
+			case strings.HasPrefix(t, "assert ") || strings.HasPrefix(t, "assert["):
+				// assert[tags] at <where>: expr
+				var atags []string
+				if m := regexp.MustCompile(`^assert\[([A-Za-z0-9_., ]+)\]`).FindStringSubmatch(t); m != nil {
+					for _, x := range strings.Split(m[1], ",") {
+						atags = append(atags, strings.TrimSpace(x))
+					}
+					t = "assert" + t[len(m[0]):]
+				}
 				rest := strings.TrimPrefix(t, "assert ")
 				where := ""
 				if strings.HasPrefix(rest, "at ") || strings.HasPrefix(rest, "after writes of ") {
@@ -535,7 +548,7 @@ func (cs *ContractSet) loadContractFile(path, pkgPath string) error {
 					where = strings.TrimSpace(strings.TrimPrefix(rest[:i], "at "))
 					rest = rest[i+1:]
 				}
-				c, err := mkClause(rest, nil)
+				c, err := mkClause(rest, atags)
 				if err != nil {
 					return err
 				}
@@ -707,4 +720,123 @@ func exprName(e ast.Expr) string {
 		return "*" + exprName(x.X)
 	}
 	return "?"
+}
+
+// scopeTo drops the clauses that are marked for other properties only: a clause tagged `[only C02]` (or
+// `[only C02, C14]`) is neither assumed nor proved in the run of any other property. The clauses a run keeps
+// are proved together in that run, so each run stands on its own.
+func (cs *ContractSet) scopeTo(prop string, facet string) {
+	keep := func(c Clause) bool {
+		only := false
+		for _, t := range c.Tags {
+			if strings.HasPrefix(t, "only ") || t == "only" {
+				only = true
+			}
+		}
+		if !only {
+			return true
+		}
+		for _, t := range c.Tags {
+			n := strings.TrimSpace(strings.TrimPrefix(t, "only "))
+			if n == prop || (facet != "" && n == prop+"."+facet) {
+				return true
+			}
+		}
+		return false
+	}
+	for _, c := range cs.Funcs {
+		var es []Clause
+		for _, e := range c.Ensures {
+			if keep(e) {
+				es = append(es, e)
+			}
+		}
+		c.Ensures = es
+		var as []HintAt
+		for _, a := range c.Asserts {
+			if keep(a.Clause) {
+				as = append(as, a)
+			}
+		}
+		c.Asserts = as
+		for _, lc := range c.Loops {
+			var inv []Clause
+			for _, i := range lc.Invariants {
+				if keep(i) {
+					inv = append(inv, i)
+				}
+			}
+			lc.Invariants = inv
+		}
+		c.dropDeadGhosts()
+	}
+}
+
+// dropDeadGhosts removes the updates of ghost variables that no remaining clause reads (directly or through
+// the update of a ghost variable that is read): they are specification-only state of clauses scoped away.
+func (c *Contract) dropDeadGhosts() {
+	if len(c.Ghosts) == 0 {
+		return
+	}
+	var texts []string
+	add := func(cs []Clause) {
+		for _, x := range cs {
+			texts = append(texts, x.Text)
+		}
+	}
+	add(c.Requires)
+	add(c.Ensures)
+	for _, lc := range c.Loops {
+		add(lc.Invariants)
+		if lc.Decreases != nil {
+			texts = append(texts, lc.Decreases.Text)
+		}
+	}
+	for _, a := range c.Asserts {
+		texts = append(texts, a.Clause.Text)
+	}
+	for _, m := range c.Modifies {
+		texts = append(texts, m.Text)
+	}
+	live := map[string]bool{}
+	local := map[string]bool{}
+	for _, gv := range c.GhostVars {
+		local[gv.Name] = true
+	}
+	for _, g := range c.Ghosts {
+		if !local[g.Var] {
+			// ghost globals are read by other contracts and by predicates
+			live[g.Var] = true
+		}
+	}
+	mentions := func(name string) bool {
+		re := regexp.MustCompile(`(^|[^A-Za-z0-9_])` + regexp.QuoteMeta(name) + `($|[^A-Za-z0-9_])`)
+		for _, t := range texts {
+			if re.MatchString(t) {
+				return true
+			}
+		}
+		return false
+	}
+	for changed := true; changed; {
+		changed = false
+		for _, g := range c.Ghosts {
+			if !live[g.Var] && mentions(g.Var) {
+				live[g.Var] = true
+				changed = true
+				for _, g2 := range c.Ghosts {
+					if g2.Var == g.Var {
+						texts = append(texts, g2.Text[strings.Index(g2.Text, "=")+1:])
+					}
+				}
+			}
+		}
+	}
+	var gs []GhostUpdate
+	for _, g := range c.Ghosts {
+		if live[g.Var] {
+			gs = append(gs, g)
+		}
+	}
+	c.Ghosts = gs
 }
